@@ -276,7 +276,16 @@ def search(ctx):
         F = gen.odd(rng, 1, 31 if ctx.tier == 'quick' else 61)
         T = int(rng.integers(1, 12))
         mask = rng.random((K, F, T))
+        if rng.random() < 0.3:
+            # un-normalised (power-like) masks: the procedure is defined for any non-negative mask, whatever its level
+            # (scores of the multiply metric beyond 2^53 are where a finite "used" marker stops being below every score)
+            lg = float(rng.uniform(7.5, 9.5)) if rng.random() < 0.6 else float(rng.uniform(-3, 7.5))
+            mask = mask * 10.0 ** lg
+            ctx.count('search-net-reordering-level-1e%d' % (3 * int(np.floor(lg / 3))))
+            level_metric = 'multiply' if rng.random() < 0.6 else None
+        else:
+            level_metric = None
         aligner = str(rng.choice(['greedy', 'dhtv']))
-        ctx.run(mapping_is_net_reordering, aligner=aligner, metric=str(rng.choice(METRICS)),
+        ctx.run(mapping_is_net_reordering, aligner=aligner, metric=level_metric or str(rng.choice(METRICS)),
                 algorithm=str(rng.choice(['greedy', 'optimal'])) if K <= 4 else 'greedy',
                 cfg=gen.dhtv_cfg(rng, F) if aligner == 'dhtv' else None, mask=mask)
